@@ -225,6 +225,15 @@ def run(res, tier, seed, driver_ok):
                 os.remove(path)
     a, b = outs['0'], outs['1']
     stats['boundscheck_calls'] = len(b)
+    for flag, rs in (('0', a), ('1', b)):
+        if rs and rs[-1][0] == 'worker-setup':
+            w = rs.pop()
+            if 'IndexError' in w[1]:
+                bad('index-error:setup', 'IndexError %s while preparing the operands of the public calls' % ('with array bounds checking switched on' if flag == '1' else ''),
+                    {'seed': seed, 'worker_repetitions': wreps, 'boundscheck': flag, 'after_call_number': len(rs)}, w[1])
+            else:
+                bad('raises:setup', 'an operation on valid inputs raised while preparing the operands of the public calls', {'seed': seed, 'boundscheck': flag, 'after_call_number': len(rs)}, w[1])
+            n_ = min(len(a), len(b)); a, b = a[:n_], b[:n_]
     if len(a) != len(b):
         res.mismatches.append({'what': 'the two worker runs made a different number of calls', 'plain': len(a), 'checked': len(b)})
     for x, y in zip(a, b):
